@@ -263,7 +263,9 @@ func c05Grid(r *rand.Rand, extra int) []CmpVal {
 	dn("dwide3", val.Dec("1000000000000000000000000000000000000.5"), "1000000000000000000000000000000000000.5")
 	// strings
 	for _, s := range []string{"", "a", "ab", "abc", "b", "B", "é", "中", "az", "aé", "0", "1", "10", "9", "1.0", " ", "a ", "true", "null",
-		"\U0001F600", "\uff0c", "\ue000", "\U00020000", "\ufffd", "a\U0001F600", "a\uff0c", "\xff", "\xc3", "a\xff", "\U0010FFFF", "\uffff", "\ud7ff"} {
+		"\U0001F600", "\uff0c", "\ue000", "\U00020000", "\ufffd", "a\U0001F600", "a\uff0c", "\xff", "\xc3", "a\xff", "\U0010FFFF", "\uffff", "\ud7ff",
+		// look-alikes: full-width forms, the ideographic space, composed and decomposed accents, case variants
+		"ABC", "\uff21\uff22\uff23", "123", "\uff11\uff12\uff13", "(", "\uff08", "\u3000", "\u00e9", "e\u0301", "abc", "Abc", "\u00c5", "\u212b", "ss", "\u00df", "\ufb01", "fi"} {
 		g = append(g, CmpVal{Src: strLit(s), Kind: "str", Str: s})
 	}
 	g = append(g, CmpVal{Src: "ds", Kind: "str", Str: "ab", Data: &val.KV{K: "ds", V: val.Str("ab")}})
